@@ -1278,9 +1278,24 @@ def dmg_check(ctx, geo, st, scenario, via_s3, mout):
     return 'ok'
 
 
+def dmg_open(ctx, geo, d, srv):
+    """Write the data set and open it; a healthy store that cannot be opened is a violation in itself."""
+    try:
+        return _DmgStore(geo, d, srv if geo.get('s3') else None)
+    except Exception as e:
+        ctx.disagree('part=vfw_damage;path=%s;symptom=open_raises:%s' % (geo['path'], type(e).__name__),
+                     dict(part='vfw_damage', geo=geo, damages=[], via_s3=bool(geo.get('s3'))), repr(e)[:300], None,
+                     'a healthy data set with these chunkings could not be written / opened')
+        ctx.note_case(('vfw_damage_open', str(geo)), nontrivial=False)
+        return None
+
+
 def dmg_run_geometry(ctx, geo, tmp, srv, n_random, every_chunk, tag):
     d = os.path.join(tmp, 'dmg_%s' % tag)
-    st = _DmgStore(geo, d, srv if geo.get('s3') else None)
+    st = dmg_open(ctx, geo, d, srv)
+    if st is None:
+        shutil.rmtree(d, ignore_errors=True)
+        return
     try:
         scen = dmg_scenarios(ctx, geo, st, n_random, every_chunk)
         dmg_run_scenarios(ctx, geo, st, scen)
@@ -1318,8 +1333,9 @@ def part_vfw_damage(ctx, tmp, only=None):
             if geo.get('s3'):
                 srv = c08_s3fake.FakeS3()
             d = os.path.join(tmp, 'dmg_replay')
-            st = _DmgStore(geo, d, srv)
-            dmg_run_scenarios(ctx, geo, st, [scen])
+            st = dmg_open(ctx, geo, d, srv)
+            if st is not None:
+                dmg_run_scenarios(ctx, geo, st, [scen] if scen else [])
             return
         thorough = ctx.tier == 'thorough'
         # fixed: the geometry of the missed seeded change (same block counts, shifted boundaries) on each path
